@@ -17,6 +17,7 @@ CONSTANTS
   MaxHeight = 3
   MsgMaxHeight = 4
   MaxRecv = 1000000
+  WithOutsider = TRUE
   PropShift = 5
 INIT TraceInit
 NEXT TraceNext
